@@ -660,6 +660,157 @@ def units():
     return [FunctionUnit(MapIf()), FunctionUnit(IsolateArgSem()), FunctionUnit(FlatAnd()),
             FunctionUnit(StmtDriver("StatementIfThenElseExpander", "ExprIfThenElseExpander")),
             FunctionUnit(StmtDriver("StatementFunctionArgumentIsolator", "ExprFunctionArgumentIsolator")),
-            FunctionUnit(StmtDriver("StatementFunctionCallIsolator", "ExpressionFunctionCallIsolator", only_assign=True))]
+            FunctionUnit(StmtDriver("StatementFunctionCallIsolator", "ExpressionFunctionCallIsolator", only_assign=True))] \
+        + units_isolator_calls()
 
 EXPR.classes.setdefault("LogicalAnd", FlatAnd.IS_AND)
+
+
+# ---- ExprFunctionArgumentIsolator.map_call / map_call_with_kwargs ---------------------------------------------------------
+class VCallNode(V):
+    ty = None
+
+    def __init__(self, npos, keys):
+        self.npos, self.keys = npos, keys
+
+
+class VKwItems(V):
+    ty = None
+
+    def __init__(self, keys):
+        self.keys = keys
+
+
+class IsolatorMapCall(FunctionContract):
+    """the call is rebuilt with the same class and function; every positional argument, in order, and every keyword
+    argument UNDER ITS OWN NAME is replaced by isolate_arg(that argument, the guard, the dependencies, the caller's list)"""
+    prop = "C07"
+    relpath = REL
+
+    def __init__(self, method, keys):
+        self.qualname = "ExprFunctionArgumentIsolator." + method
+        self.keys = list(keys)                 # keyword names in the order they were written
+        self.variant_name = ("keywords=" + "/".join(self.keys)) if method == "map_call_with_kwargs" else ""
+        self.method = method
+
+    def params(self, ctx):
+        self.bad_call = False
+        ctx.env["self"] = VObj(TObj("Isolator", {}), {"isolate_arg": VFunc("isolate_arg", self.m_iso)})
+        ctx.env["expr"] = VCallNode(2, self.keys)
+        ctx.env["base_condition"] = VPy("<guard>")
+        ctx.env["base_deps"] = VPy("<deps>")
+        ctx.env["extra_deps"] = VPy("<extra_deps>")
+
+    def m_iso(self, ctx, it, args, kw):
+        a = [getattr(ctx.deref(x), "py", "?") for x in args]
+        if a[1:] != ["<guard>", "<deps>", "<extra_deps>"] or kw:
+            self.bad_call = True
+        return VPy("ISO(%s)" % a[0])
+
+    def getattr_hook(self, ctx, it, obj, name):
+        o = ctx.deref(obj)
+        if isinstance(o, VCallNode):
+            if name == "function":
+                return VPy("expr.function")
+            if name == "parameters":
+                return VTuple([VPy("pos%d" % i) for i in range(o.npos)])
+            if name == "kw_parameters":
+                return VKwItems(o.keys)
+        if isinstance(o, VKwItems):
+            if name == "items":
+                return VFunc("items", lambda ctx, it, a, k: VTuple([VTuple([VPy(k_), VPy("val_" + k_)]) for k_ in o.keys]))
+            if name == "keys":
+                return VFunc("keys", lambda ctx, it, a, k: VTuple([VPy(k_) for k_ in o.keys]))
+            if name == "values":
+                return VFunc("values", lambda ctx, it, a, k: VTuple([VPy("val_" + k_) for k_ in o.keys]))
+        return None
+
+    def schema(self, ctx, it, e):
+        gen = e.generators[0]
+        src = ctx.deref(it.eval(gen.iter))
+        if isinstance(src, VKwItems):
+            src = VTuple([VPy(k_) for k_ in src.keys])
+        if not (isinstance(src, VTuple) and len(e.generators) == 1 and not gen.ifs):
+            raise Unsupported("comprehension %s" % pyast.unparse(e))
+        out = []
+        saved = dict(ctx.env)
+        try:
+            for x in src.items:
+                it.assign(gen.target, x)
+                if isinstance(e, pyast.DictComp):
+                    out.append((ctx.deref(it.eval(e.key)).py, ctx.deref(it.eval(e.value)).py))
+                else:
+                    out.append(ctx.deref(it.eval(e.elt)))
+        finally:
+            ctx.env = saved
+        return VPy(("dict", tuple(out))) if isinstance(e, pyast.DictComp) else VTuple(out)
+
+    @property
+    def comprehensions(self):
+        from .c16 import _comprehensions_of
+        return {pyast.unparse(c): self.schema for c in _comprehensions_of(REL, self.qualname)}
+
+    def m_sorted(self, ctx, it, args, kw):
+        v = ctx.deref(args[0])
+        if isinstance(v, VKwItems):
+            v = VTuple([VPy(k_) for k_ in v.keys])
+        if not isinstance(v, VTuple) or kw:
+            raise Unsupported("sorted(%r)" % (v,))
+        return VTuple(sorted(v.items, key=lambda x: str(ctx.deref(x.items[0]).py) if isinstance(x, VTuple) else str(x.py)))
+
+    def m_zip(self, ctx, it, args, kw):
+        xs = []
+        for a in args:
+            v = ctx.deref(a)
+            if isinstance(v, VKwItems):
+                v = VTuple([VPy(k_) for k_ in v.keys])
+            if not isinstance(v, VTuple):
+                raise Unsupported("zip(%r)" % (v,))
+            xs.append(v.items)
+        return VTuple([VTuple(list(t)) for t in zip(*xs)])
+
+    def m_idict(self, ctx, it, args, kw):
+        v = ctx.deref(args[0])
+        if isinstance(v, VPy) and isinstance(v.py, tuple) and v.py[0] == "dict":
+            return v
+        if isinstance(v, VTuple):       # pairs
+            return VPy(("dict", tuple((ctx.deref(p.items[0]).py, ctx.deref(p.items[1]).py) for p in v.items)))
+        raise Unsupported("immutabledict(%r)" % (v,))
+
+    def m_type(self, ctx, it, args, kw):
+        a = ctx.deref(args[0])
+
+        def construct(ctx2, it2, a2, k2):
+            return VPy(("rebuilt", isinstance(a, VCallNode), tuple(ctx2.deref(x) for x in a2)))
+        return VClass("type(expr)", construct)
+
+    names = property(lambda self: {"sorted": VFunc("sorted", self.m_sorted), "zip": VFunc("zip", self.m_zip),
+                                   "immutabledict": VFunc("immutabledict", self.m_idict), "type": VFunc("type", self.m_type),
+                                   "tuple": VFunc("tuple", lambda ctx, it, a, k: ctx.deref(a[0])),
+                                   "dict": VFunc("dict", self.m_idict)})
+
+    def ensures(self, st):
+        r = st.result
+        B = z3.BoolVal
+        if not (isinstance(r, VPy) and isinstance(r.py, tuple) and r.py[0] == "rebuilt" and r.py[1]):
+            return [("the-call-is-rebuilt-with-its-own-class", B(False))]
+        parts = r.py[2]
+        fn = getattr(parts[0], "py", None) if parts else None
+        pos = tuple(getattr(x, "py", None) for x in parts[1].items) if len(parts) > 1 and isinstance(parts[1], VTuple) else None
+        out = [("the-call-is-rebuilt-with-its-own-class-and-function", B(fn == "expr.function")),
+               ("every-positional-argument-is-isolated-in-place", B(pos == ("ISO(pos0)", "ISO(pos1)"))),
+               ("isolate_arg-always-gets-the-guard-the-dependencies-and-the-caller's-list", B(not self.bad_call))]
+        if self.method == "map_call_with_kwargs":
+            kwd = dict(parts[2].py[1]) if len(parts) > 2 and isinstance(parts[2], VPy) and isinstance(parts[2].py, tuple) else None
+            out.append(("every-keyword-argument-is-isolated-under-its-own-name",
+                        B(kwd == {k_: "ISO(val_%s)" % k_ for k_ in self.keys})))
+        else:
+            out.append(("nothing-else-is-passed", B(len(parts) == 2)))
+        return out
+
+
+def units_isolator_calls():
+    return [FunctionUnit(IsolatorMapCall("map_call", [])),
+            FunctionUnit(IsolatorMapCall("map_call_with_kwargs", ["b", "a"])),
+            FunctionUnit(IsolatorMapCall("map_call_with_kwargs", ["k"])),
+            FunctionUnit(IsolatorMapCall("map_call_with_kwargs", ["c", "a", "b"]))]
